@@ -506,6 +506,10 @@ def r10_rotation_of_copies_and_lookup(idx, r):
     from ..report import Only
     from .c01 import r13_single_parent_paths
     r13_single_parent_paths(idx, Only(r, ["Block.__deepcopy__", "Core.__deepcopy__", "Reactor.__deepcopy__", "ExcoreCollection.__deepcopy__", "HexBlock.__deepcopy__"]))
+    # (d) the volume of a symmetry-cut block - what is multiplied by three and restored - is what Block.getArea answers on EVERY read: the
+    # cached value is the returned one (clause of R02.15)
+    from .c02 import r15_memo_and_mass_vector
+    r15_memo_and_mass_vector(idx, Only(r, ["Block.getArea:cache-stores-what-it-returns"]))
 
 
 def r11_pairing(idx, r):
